@@ -99,6 +99,38 @@ def pipeline_check(ctx, prop_file, focus, n=None):
     return scs, outs, outs0, builtin
 
 
+def dirparse_correspondence(ctx, n):
+    """parse_ignore_comment (hook) vs the model's parse_comment on random comment texts (incl. line breaks, which the
+    regex `.` does not match, dashes, commas, every kind of white space)."""
+    rng = random.Random(ctx.seed + 77)
+    words = ["deno-lint-ignore", "deno-lint-ignore-file", "w", "a-b"]
+    alpha = [" ", " ", "\t", "\u00a0", "\u3000", ",", ",", "-", "-", "a", "b", "no-x", "\n", "\r", "é", "--", " -- "]
+    cases, lines = [], []
+    for _ in range(n):
+        w = rng.choice(words)
+        k = rng.random()
+        body = "".join(rng.choice(alpha) for _ in range(rng.randint(0, 14)))
+        text = (rng.choice(["", " ", "\t ", "\u3000"]) + (w if k < 0.85 else rng.choice(words)) + (rng.choice(["", " ", "\t", ",", "-"]) if k < 0.95 else "x") + body)
+        line = rng.random() < 0.93
+        cases.append({"word": w, "text": text, "line": line})
+        lines.append("%s %s %d" % (pipe.enc_str(w), pipe.enc_str(text), 1 if line else 0))
+    impl = lib.run_vh("dirparse", cases)
+    mod = lib.run_model("pipe", "dirparse", lines)
+    mism, nontriv = [], set()
+    for c, i, m in zip(cases, impl, mod):
+        r = pipe.Reader(m)
+        tag = r.int()
+        mc = sorted(r.list(r.str)) if tag == 1 else None
+        ic = i.get("dir") if isinstance(i, dict) else "?"
+        if tag == 2 or ic != mc:
+            mism.append({"case": c, "impl": i, "model": m})
+        elif mc:
+            nontriv.add(c["text"])
+    ctx.correspondence("parse_ignore_comment (hook) vs model parse_comment on random comment texts", n, len(nontriv), mism[:10],
+                       "random texts over white space kinds, commas, dashes, `--`, line breaks, letters; non-trivial := a directive with at least one code",
+                       samples=[cases[0]])
+
+
 @register("C17")
 def c17(ctx):
     ctx.assumptions.append("swc comment capture/attachment modelled: the generator's own layout knowledge is the model's input, so it is re-validated on every run")
@@ -108,11 +140,13 @@ def c17(ctx):
 @register("C05")
 def c05(ctx):
     pipeline_check(ctx, "C05", {"force": "default_words", "clauses": ["C05"]})
+    dirparse_correspondence(ctx, 5000 if ctx.tier == "quick" else 100000)
 
 
 @register("C06")
 def c06(ctx):
     pipeline_check(ctx, "C06", {"force": "default_words", "clauses": ["C06"]})
+    dirparse_correspondence(ctx, 20000 if ctx.tier == "quick" else 400000)
 
 
 @register("C07")
